@@ -336,6 +336,29 @@ fn main() {
                     }
                 }
                 writeln!(d, "        }}\n    }}").unwrap();
+                // full(): like base() with every modelled member at its fully populated value
+                writeln!(d, "    #[allow(unused_variables)]\n    fn full(pos: Pos, depth: u32) -> Self {{\n        if depth == 0 {{ return Self::base(pos); }}\n        {name} {{").unwrap();
+                for (f, t) in fields {
+                    let p = if is_io { io_pos.get(&(name.clone(), norm(f))).map(|x| x.0) } else { None };
+                    let pos_expr = match p {
+                        _ if is_httpdate(t) => "Pos::Header".to_owned(),
+                        Some("Status") | None => "pos".to_owned(),
+                        Some(p) => format!("Pos::{p}"),
+                    };
+                    if f == "bucket" && t == "BucketName" {
+                        writeln!(d, "            {f}: \"bkt\".to_owned(),").unwrap();
+                    } else if is_io && p.is_none() {
+                        if !t.starts_with("Option<") {
+                            writeln!(d, "            {f}: <{t} as Gen>::base(Pos::Xml),").unwrap();
+                        } else {
+                            writeln!(d, "            {f}: None,").unwrap();
+                        }
+                    } else {
+                        let pos_expr = if is_io || is_httpdate(t) { pos_expr } else { "pos".to_owned() };
+                        writeln!(d, "            {f}: <{t} as Gen>::full({pos_expr}, depth - 1),").unwrap();
+                    }
+                }
+                writeln!(d, "        }}\n    }}").unwrap();
                 writeln!(d, "    #[allow(unused_variables, unused_mut)]\n    fn alts(pos: Pos, depth: u32) -> Alts<Self> {{\n        let mut v: Alts<Self> = Vec::new();\n        if depth == 0 {{ return v; }}").unwrap();
                 for (f, t) in fields {
                     let p = if is_io { io_pos.get(&(name.clone(), norm(f))).map(|x| x.0) } else { None };
@@ -392,6 +415,7 @@ fn main() {
                 let (v0, t0) = &variants[0];
                 writeln!(d, "impl Gen for {name} {{").unwrap();
                 writeln!(d, "    fn base(pos: Pos) -> Self {{ {name}::{v0}(<{t0} as Gen>::base(pos)) }}").unwrap();
+                writeln!(d, "    fn full(pos: Pos, depth: u32) -> Self {{ if depth == 0 {{ Self::base(pos) }} else {{ {name}::{v0}(<{t0} as Gen>::full(pos, depth - 1)) }} }}").unwrap();
                 writeln!(d, "    fn alts(pos: Pos, depth: u32) -> Alts<Self> {{\n        let mut v: Alts<Self> = Vec::new();").unwrap();
                 for (vn, vt) in variants {
                     writeln!(d, "        v.push((\"={vn}(base)\".to_owned(), Arc::new(move |x: &mut Self| *x = {name}::{vn}(<{vt} as Gen>::base(pos)))));").unwrap();
